@@ -22,6 +22,10 @@ structure Res where
 
 instance : BEq Res := ⟨fun a b => decide (a = b)⟩
 
+instance : LawfulBEq Res where
+  eq_of_beq h := of_decide_eq_true h
+  rfl := decide_eq_true rfl
+
 def Op.form? : Op → Option Form
   | .snd f _ _ => some f
   | .rcv f _ _ => some f
